@@ -80,6 +80,10 @@ def check_codec(case):
     if valid:
         if e != s:
             raise Violation('encode/string', 'encode(%r, %d, %s) = %r expected %r' % (hrp, ver, prog.hex(), e, s))
+        # the program as the reference implementation's callers pass it: a list of integers, a bytearray, a memoryview
+        for kind, pv in (('list', list(prog)), ('bytearray', bytearray(prog)), ('memoryview', memoryview(prog)), ('tuple', tuple(prog))):
+            if libx.call('encode-' + kind, SA.encode, hrp, ver, pv)[1] != s:
+                raise Violation('encode/program-as-' + kind, 'encode(%r, %d, program as %s) differs' % (hrp, ver, kind))
     elif e is not None:
         raise Violation('encode/invalid-accepted', 'encode(%r, %d, %d-byte program) returned %r although BIP173 forbids it' % (hrp, ver, len(prog), e))
     got = cmp_decode(hrp, s, tag='codec')
